@@ -1,8 +1,9 @@
 import Lean.Data.Json
 import Verif.Model.StdioIn
+import Verif.Model.StdioRoute
 open Lean
 namespace Verif.Drv.StdioIn
-open Verif.Model.StdioIn
+open Verif.Model.StdioIn Verif.Model.StdioRoute
 -- DRIVER: stdio_reader
 
 def hexVal (c : Char) : Option Nat :=
@@ -19,10 +20,15 @@ def unhex : List Char → Except String (List Nat)
     | some x, some y => return (16 * x + y) :: (← unhex r)
     | _, _ => throw "bad hex digit"
 
-abbrev Msg := Nat × Bool
+/-- message = (index in the harness table, `str(id)` or none) -/
+abbrev Msg := Nat × Option (List Char)
 
 def getMsg (j : Json) : Except String Msg := do
-  return (← j.getObjValAs? Nat "id", ← j.getObjValAs? Bool "notif")
+  let notif ← j.getObjValAs? Bool "notif"
+  let key : Option (List Char) := match j.getObjVal? "key" with
+    | .ok (.str k) => some k.toList
+    | _ => if notif then none else some []
+  return (← j.getObjValAs? Nat "id", if notif then none else key)
 
 def getParsed (j : Json) : Except String (Parsed Msg) := do
   let k ← j.getObjValAs? String "k"
@@ -36,18 +42,21 @@ def getParsed (j : Json) : Except String (Parsed Msg) := do
     return .batch ms
   | _ => return .junk
 
-def getEv (j : Json) : Except String Ev :=
+def getEv (j : Json) : Except String REv :=
   match j.getObjVal? "c" with
   | .ok (.str h) => do return .chunk (← unhex h.toList)
-  | _ => match j.getObjVal? "v" with
-    | .ok (.str s) => pure (.setVersion (some s.toList))
-    | .ok .null => pure (.setVersion none)
-    | _ => throw s!"bad event {j.compress}"
+  | _ => match j.getObjVal? "reg" with
+    | .ok (.str k) => pure (.register k.toList)
+    | _ => match j.getObjVal? "v" with
+      | .ok (.str s) => pure (.setVersion (some s.toList))
+      | .ok .null => pure (.setVersion none)
+      | _ => throw s!"bad event {j.compress}"
 
 /-- `{"m":"stdio_reader","events":[{"c":"<hex bytes of one read>"} | {"v":<version|null>}],
      "table":[{"line":"<stripped line>","k":"single","id":n,"notif":b}
               | {"line":…,"k":"batch","items":[null | {"id":n,"notif":b}]}], "cap":n}`
-   (lines absent from the table are junk)
+   (lines absent from the table are junk; `{"reg":"<key>"}` events register a per-request stream; messages carry
+   `"key":"<str(id)>"`)
    -> `{"delivered":[ids],"offered":[ids],"buffered":[ids],"rejections":n,"alive":b}` -/
 def handle (j : Json) : Except String Json := do
   let evs ← (← j.getObjValAs? (Array Json) "events").toList.mapM getEv
@@ -56,19 +65,26 @@ def handle (j : Json) : Except String Json := do
     let p ← getParsed e
     pure (line, p))
   let cap := (j.getObjValAs? Nat "cap").toOption.getD 100
-  let cfg : Cfg Msg := {
+  let rc : RCfg Msg := {
     parse := fun cs =>
       let s := String.ofList (cs.map Char.ofNat)
       match tab.find? (fun e => e.1 == s) with
       | some e => e.2
       | none => .junk
-    isNotif := fun m => m.2 }
-  let r := run cfg init evs
+    key := fun m => m.2 }
+  -- the routing model (per-request streams included); its projection is the reader of `Model/StdioIn`
+  let rp := runP rc ⟨init, []⟩ evs
+  let outs := rp.2.filterMap erase
   let ids (l : List Msg) : Json := Json.arr (l.map (fun m => toJson m.1)).toArray
+  let reqs : List Json := rp.2.filterMap (fun o => match o with
+    | .request k m => some (Json.arr #[Json.str (String.ofList k), toJson m.1])
+    | _ => none)
   return Json.mkObj [
-    ("delivered", ids (delivered r.2)),
-    ("offered", ids (offered r.2)),
-    ("buffered", ids (notifBuffer cap r.2)),
-    ("rejections", toJson (rejections r.2)),
-    ("alive", Json.bool r.1.alive)]
+    ("delivered", ids (delivered outs)),
+    ("offered", ids (offered outs)),
+    ("buffered", ids (notifBuffer cap outs)),
+    ("rejections", toJson (rejections outs)),
+    ("requests", Json.arr reqs.toArray),
+    ("pending", Json.arr (rp.1.pend.map (fun k => Json.str (String.ofList k))).toArray),
+    ("alive", Json.bool rp.1.st.alive)]
 end Verif.Drv.StdioIn
